@@ -56,6 +56,11 @@ impl RuntimeData {
         stack_size: usize,
         call_stack_size: usize,
     ) -> Result<Pin<Box<Self>>, ExecutionErrorPayload> {
+        if stack_size == 0 {
+            return Err(ExecutionErrorPayload::invalid_argument(
+                "The size of the value stack must be positive",
+            ));
+        }
         // we have a chicken-egg problem if we want to store the allocator in this structure
         let allocator = CaoLangAllocator::new(std::ptr::null_mut(), memory_limit);
         let memory: AllocProxy = allocator.into();
